@@ -83,10 +83,10 @@ pub fn get_transition_constraint_degrees() -> Vec<TransitionConstraintDegree> {
         TransitionConstraintDegree::with_cycles(5, vec![HASH_CYCLE_LEN]),
         TransitionConstraintDegree::with_cycles(5, vec![HASH_CYCLE_LEN]),
         // Enforce correct node absorption during Merkle path computation.
-        TransitionConstraintDegree::with_cycles(6, vec![HASH_CYCLE_LEN; 2]),
-        TransitionConstraintDegree::with_cycles(6, vec![HASH_CYCLE_LEN; 2]),
-        TransitionConstraintDegree::with_cycles(6, vec![HASH_CYCLE_LEN; 2]),
-        TransitionConstraintDegree::with_cycles(6, vec![HASH_CYCLE_LEN; 2]),
+        TransitionConstraintDegree::with_cycles(6, vec![HASH_CYCLE_LEN]),
+        TransitionConstraintDegree::with_cycles(6, vec![HASH_CYCLE_LEN]),
+        TransitionConstraintDegree::with_cycles(6, vec![HASH_CYCLE_LEN]),
+        TransitionConstraintDegree::with_cycles(6, vec![HASH_CYCLE_LEN]),
     ];
 
     degrees.into()
@@ -238,8 +238,10 @@ fn enforce_hasher_state<E: FieldElement + From<Felt>>(
     // When absorbing the next node during Merkle path computation, the result of the previous
     // hash (h4,...,h7) is copied over either to (h′4,...,h′7) or to (h′8,...,h′11) depending
     // on the value of b.
-    let mp_abp_flag = last_row
-        * (frame.f_mp(periodic_values) + frame.f_mv(periodic_values) + frame.f_mu(periodic_values));
+    // The next node is absorbed on the last row of a cycle, i.e. by the MPA, MVA and MUA
+    // instructions. (The flags of MP, MV and MU are set on the first row of a cycle only; combined
+    // with `last_row` they are never set and the constraint would be vacuous.)
+    let mp_abp_flag = last_row * (frame.f_mpa() + frame.f_mva() + frame.f_mua());
     for (idx, result) in result[constraint_offset..].iter_mut().take(DIGEST_LEN).enumerate() {
         let digest_idx = DIGEST_RANGE.start + idx;
         let h_copy_down = frame.h_next(digest_idx) - frame.h(digest_idx);
